@@ -861,6 +861,14 @@ func c18Hooks(c *Ctx) {
 					continue
 				}
 				f := mc.Fn.(*ssa.Function)
+				// a method value (filler.fill): look at the method behind the bound-method wrapper
+				if f.Synthetic != "" {
+					if o, isO := f.Object().(*types.Func); isO {
+						if d := P.SSA.FuncValue(o); d != nil && len(d.Blocks) > 0 {
+							f = d
+						}
+					}
+				}
 				if len(Calls(f, sDecode)) == 0 {
 					bad = "the returned closure does not call config.DecodeAndValidate"
 					okAll = false
@@ -883,7 +891,7 @@ func c18Hooks(c *Ctx) {
 			seenF[f] = true
 			for _, in := range Calls(f, sDecode) {
 				cl := in.(*ssa.Call)
-				okArgs := len(cl.Call.Args) == 2 && len(f.Params) == 1 && DerivesOnly(cl.Call.Args[1], false, func(v ssa.Value) bool { return v == ssa.Value(f.Params[0]) })
+				okArgs := len(cl.Call.Args) == 2 && len(f.Params) >= 1 && DerivesOnly(cl.Call.Args[1], false, func(v ssa.Value) bool { return v == ssa.Value(f.Params[len(f.Params)-1]) })
 				c.Check(okArgs, "O18.6", fk(f)+":decodes-into-the-given-config", cl.Pos(), "DecodeAndValidate(settings, conf) must be given the closure's conf parameter")
 				checkErrPropagated(c, "O18.6", fk(f)+":decode-error-returned", cl)
 			}
